@@ -279,8 +279,8 @@ def _runs(ctx, budget):
     if budget in cache:
         return cache[budget]
     rng = ctx.subrng(f"runs{budget}")
-    n_serial = ctx.budget(40, 400) * max(1, budget // 4)
-    n_par = ctx.budget(6, 60) * max(1, budget // 8)
+    n_serial = ctx.budget(32, 400) * max(1, budget // 4)
+    n_par = ctx.budget(5, 60) * max(1, budget // 8)
     runs = []
     # (max_workers, chunksize, if_serial): chunk sizes that do not divide the input count, one worker, many workers
     par_cfgs = [(2, 3, None), (3, 4, None), (1, None, None), (4, 7, "ignore"), (6, 2, None), (5, 1, "warn"), (3, None, None), (2, 7, None),
@@ -389,6 +389,7 @@ def correspondence(ctx):
             out["samples"].append(dict(inp, completion_order=order_ids, store=r["res"]["recs"], seconds=round(r["res"]["took"], 2)))
     _corr_calls(ctx, out)
     _corr_alias(ctx, out)
+    _corr_parallel_book(ctx, out)
     return out
 
 
@@ -459,6 +460,59 @@ def _corr_alias(ctx, out):
         expected = {e[0]: canon_model(e[1]) for e in mr["store"]}
         if _compare_run(out, "corr", j["spec"], j["ms"], j["res"], expected, "aliased identifiers: real store vs Lean applyTo", inp, "corr:alias:") and (dup or j["pre"]):
             out["nontrivial"].add(("alias", j["tag"]))
+
+
+def _corr_parallel_book(ctx, out):
+    """Model/ParallelBook.lean vs the code's bookkeeping: get_default_chunksize, the chunking executor.map applies
+    (loky's own _get_chunks), imap results for every (n, chunksize), and as_completed fed the completion order that was observed"""
+    from cogent3.util import parallel as PAR
+
+    try:
+        from loky.process_executor import _get_chunks
+    except Exception:  # pragma: no cover
+        _get_chunks = None
+    grid = [(n, w) for n in range(0, 41) for w in range(1, 9)]
+    for (n, w), m in zip(grid, ctx.driver.batch([("chunksize", dict(n=n, w=w)) for n, w in grid])):
+        out["evaluations"] += 1
+        real = PAR.get_default_chunksize(range(n), w)
+        if real != m:
+            add_failure(out, "corr", "get_default_chunksize differs from the model", dict(n=n, max_workers=w), m, real, confirmed=False)
+    cgrid = [(n, c) for n in range(0, 14) for c in (1, 2, 3, 4, 7, 13, 20)]
+    res_chunks = ctx.driver.batch([("chunks", dict(n=n, c=c)) for n, c in cgrid])
+    res_imap = ctx.driver.batch([("imap", dict(n=n, c=c)) for n, c in cgrid])
+    for (n, c), mc, mi in zip(cgrid, res_chunks, res_imap):
+        out["evaluations"] += 1
+        ref = [list(range(n))[i : i + c] for i in range(0, n, c)]
+        real = [[x[0] for x in ch] for ch in _get_chunks(c, range(n))] if _get_chunks else ref
+        if mc != real or mc != ref:
+            add_failure(out, "corr", "chunking differs from the model", dict(n=n, chunksize=c), mc, real, confirmed=False)
+        if mi != [x * x for x in range(n)]:
+            add_failure(out, "corr", "model imap results are not [f(x) for x in s]", dict(n=n, chunksize=c), [x * x for x in range(n)], mi, confirmed=False)
+        elif n > c:
+            out["nontrivial"].add(("chunks", n, c))
+    bump(out, "parallel_book", len(grid) + len(cgrid))
+    # as_completed: the model, given the completion order that actually happened, yields exactly what the real call yielded
+    from .c14_funcs import slow_square
+
+    rng = ctx.subrng("asc-order")
+    cases = [(rng.randint(2, 12), rng.randint(1, 6), rng.choice([None, 1, 3, 4, 7])) for _ in range(ctx.budget(4, 40))]
+    reqs, reals = [], []
+    for n, mw, cs in cases:
+        kw = dict(max_workers=mw)
+        if cs:
+            kw["chunksize"] = cs
+        got = [list(r) for r in PAR.as_completed(slow_square, list(range(n)), **kw)]
+        order = [r[0] for r in got]
+        reqs.append(("as_completed", dict(n=n, order=order)))
+        reals.append([r[1] for r in got])
+    for (n, mw, cs), rq, real, m in zip(cases, reqs, reals, ctx.driver.batch(reqs)):
+        out["evaluations"] += 1
+        order = rq[1]["order"]
+        if m != real or sorted(order) != list(range(n)):
+            add_failure(out, "corr", "util.parallel.as_completed: results differ from the bookkeeping model fed the observed completion order "
+                        "(or a task completed not exactly once)", dict(n=n, max_workers=mw, chunksize=cs, order=order), m, real, confirmed=False)
+        elif order != sorted(order):
+            out["nontrivial"].add(("asc", n, mw, cs, tuple(order)))
 
 
 def _spec_brief(spec):
@@ -533,8 +587,76 @@ def spec_check(ctx, budget):
     out["evaluations"] += 1
     if f:
         out["failures"].append(f)
+    for w in (dict(kind="falsy_input", falsy=""), dict(kind="source_inputs", n=3, drop=1)):
+        out["evaluations"] += 1
+        f = check_witness(ctx, w)
+        if f:
+            out["failures"].append(f)
     _parallel_direct(ctx, out, budget)
     return out
+
+
+def _falsy_input_case(ctx, w):
+    """apply_to over inputs one of which is falsy ('' / 0 / an empty list): the property wants one record per input"""
+    from cogent3.app.data_store import DataStoreDirectory
+    from cogent3.app.io import write_json
+
+    from . import c14_apps as A
+
+    ctx._c14wt = getattr(ctx, "_c14wt", 0) + 1
+    base = ctx.scratch / f"c14_falsy_{ctx._c14wt}"
+    base.mkdir(exist_ok=True)
+    falsy = w.get("falsy", "")
+    inputs = [str(base / "in" / "r001.txt"), falsy, str(base / "in" / "r003.txt")]
+    ds = DataStoreDirectory(str(base / "out"), mode="w", suffix="json")
+    app = A.c14_load() + write_json(data_store=ds)
+    exc = None
+    try:
+        app.apply_to(inputs, logger=False, show_progress=False)
+    except Exception as e:  # noqa
+        exc = f"{type(e).__name__}: {e}"[:160]
+    n_rec = len(ds.completed) + len(ds.not_completed)
+    if exc or n_rec != len(inputs):
+        out = new_outcome()
+        add_failure(out, "spec", "an input that is falsy ('' / 0 / empty) is silently dropped by apply_to: it ends up with no record of any kind",
+                    dict(w, inputs=[os.path.basename(str(x)) for x in inputs]), f"{len(inputs)} records", dict(exc=exc, records=n_rec),
+                    sig="falsy-input:no-record" if not exc else "falsy-input:apply_to-raises")
+        return out["failures"][0]
+    return None
+
+
+def _source_inputs_case(ctx, w):
+    """a loader-less composition over in-memory inputs that carry `.source`; one step returns a value without a source"""
+    from cogent3.app.data_store import DataStoreDirectory
+    from cogent3.app.io import write_json
+
+    from . import c14_apps as A
+
+    ctx._c14wt = getattr(ctx, "_c14wt", 0) + 1
+    base = ctx.scratch / f"c14_src_{ctx._c14wt}"
+    base.mkdir(exist_ok=True)
+    plan = {str(w["drop"]): ["retnosrc", 2, 0]}
+    objs = [A.RecA(i, source=f"r{i:03d}.txt") for i in range(w["n"])]
+    alone = {}
+    for o in objs:
+        r = A.c14_step1a(plan=plan)(A.RecA(o.val, source=o.source))
+        alone[f"r{o.val:03d}"] = "completed" if r else "not_completed"
+    ds = DataStoreDirectory(str(base / "out"), mode="w", suffix="json")
+    app = A.c14_step1a(plan=plan) + write_json(data_store=ds)
+    exc = None
+    try:
+        app.apply_to(objs, logger=False, show_progress=False)
+    except Exception as e:  # noqa
+        exc = f"{type(e).__name__}: {e}"[:160]
+    got = {str(m.unique_id).replace(".json", ""): "completed" for m in ds.completed}
+    got.update({os.path.basename(str(m.unique_id)).replace(".json", ""): "not_completed" for m in ds.not_completed})
+    if exc or got != alone:
+        out = new_outcome()
+        add_failure(out, "spec", "apply_to over in-memory inputs that carry .source raises (inputs are not proxied, the identifier is read from the "
+                    "RESULT) when a step returns a value without a source, although every record is fine when the app is called on it alone",
+                    dict(w), alone, dict(exc=exc, store=got), sig="apply_to-raises:input-with-source" if exc else "input-with-source:store-differs")
+        return out["failures"][0]
+    return None
 
 
 def _parallel_case(fn, n, mw, cs):
@@ -564,7 +686,7 @@ def _parallel_direct(ctx, out, budget):
         rng = ctx.subrng(f"pardirect{key}")
         grid = [(fn, n, mw, cs) for fn in ("as_completed", "imap", "map") for n in range(1, 13) for mw in range(1, 7) for cs in (None, 1, 2, 3, 4, 7)]
         must = [("as_completed", 10, 3, 3), ("as_completed", 10, 2, 4), ("imap", 10, 3, 4), ("map", 11, 2, 7), ("as_completed", 1, 1, None), ("imap", 5, 6, 7)]
-        cases = must + rng.sample(grid, ctx.budget(30, 400) * (1 if key == 1 else 2))
+        cases = must + rng.sample(grid, ctx.budget(20, 400) * (1 if key == 1 else 2))
         cache[key] = [(c, _parallel_case(*c)) for c in cases]
     for (fn, n, mw, cs), (exp, got) in cache[key]:
         out["evaluations"] += 1
@@ -649,6 +771,10 @@ def match_finding(f, k):
 def check_witness(ctx, w):
     if w.get("kind") == "writer_type":
         return _writer_type_case(ctx, dict(n=w["n"], bad=w["bad"]))
+    if w.get("kind") == "falsy_input":
+        return _falsy_input_case(ctx, w)
+    if w.get("kind") == "source_inputs":
+        return _source_inputs_case(ctx, w)
     if w.get("kind") == "listed_twice":
         spec = dict(loader=dict(rules={w["fail"]: ["raise", 1]}, default=["ret", 2, 0]), steps=[], sleeps={}, members=w["members"], outcome={})
         first = run_apply(ctx, "wit_lt", spec, w["members"][: w["first"]], w["store"], False, 2)
@@ -666,6 +792,10 @@ def replay(ctx, data):
     inp = f.get("input") or {}
     if inp.get("kind") == "writer_type":
         r = _writer_type_case(ctx, dict(n=inp["n"], bad=inp["bad"]))
+        print(r)
+        return r is not None
+    if inp.get("kind") in ("falsy_input", "source_inputs"):
+        r = check_witness(ctx, inp)
         print(r)
         return r is not None
     if inp.get("kind") == "parallel_direct":
